@@ -14,6 +14,17 @@ CHECKS = {
         "system. Domain restricted to patch sets relic's builders can construct (A.1). Blobs >4GiB not exercised.",
    technique="TLA+ spec + TLC exhaustive enumeration; spec behaviours replayed on real code (model-based testing)",
    engine="binpatch"),
+ "C13": dict(cat="model_checking", design="§4 C13",
+   text="spec/OutputFS.tla: the output protocol at system-call grain over a small file-system state with Crash enabled in every "
+        "state; DestAtomic/InputIntact/NoTempAtExit are state invariants, i.e. hold at every crash point; 4 negative controls "
+        "(among them the unlink-then-rename the tree shipped with). Binding: the real relic binary (jar, msi, cat, pgp clearsign, "
+        "pe, ps1, same-path rewrite) and the output-phase driver (whole, rewrite, msi, handled errors) run under strace; every "
+        "recorded call on dest/input/temp paths is validated by OutputFS_Trace with the invariants evaluated after each call; "
+        "then SIGKILL is injected for real on entry of the output-phase calls and the directory is inspected.",
+   note="Trusted: strace's log (completion order), the path classifier, crash = state after the last completed call (no fsync/"
+        "power-loss semantics). Non-deterministic outputs are judged complete by relic verify + size.",
+   technique="TLA+ file-system/protocol model checked by TLC; strace-recorded traces validated against the spec; SIGKILL fault injection per syscall boundary",
+   engine="outputfs"),
 }
 
 NOT_YET = {}
